@@ -11,7 +11,7 @@ LEVEL = "exploration"
 DESIGN_REF = "DESIGN.md section 4 / C12"
 CHUNK = 4
 RULE = ("(a) unconstrained {QP+quartic, QP+softplus (3 instances each), Rosenbrock} x n in "
-        "{2,3,5,8} x 4 starts (absence of bounds written as None or as infinite pairs) x maxcor {1,3,8} (quick) / 1..8 (thorough), 12 iterations (and a slice with all variables rescaled to ~1e-6), "
+        "{2,3,5,8} x 4 starts (absence of bounds written as None or as infinite pairs) x maxcor {1,3,8} (quick) / 1..8 (thorough), 12 iterations (and a slice with all variables rescaled to ~1e-6, and one with maxls in {1,2} in both implementations, compared up to the first step the port accepts without the strong Wolfe conditions), "
         "ftol=gtol=0: the two evaluation-point sequences (package vs "
         "scipy.optimize.minimize(method='L-BFGS-B')) must agree point by point (1e-6 "
         "relative) up to the first of: end of a sequence, round-off regime, or a DETECTED "
@@ -47,6 +47,16 @@ def inst(kind, n, var):
     if kind == "soft":
         return (lambda x: 0.5 * x @ Hm @ x - b @ x + np.sum(np.logaddexp(0, 2 * x)),
                 lambda x: Hm @ x - b + 2.0 / (1.0 + np.exp(-2 * x)))
+    if kind == "softw":
+        # weakly convex QP (smallest curvature 0.1) + softplus terms with mixed weights:
+        # quasi-Newton steps overshoot, so that searches limited to one trial fail far
+        # from the solution
+        Mw = np.sin(2.3 * i[:, None] + 1.1 * i[None, :] + 0.7 * var + 0.4) * 1.6
+        Aw = Mw @ Mw.T / n + 0.1 * np.eye(n)
+        bw = 3.0 * np.cos(1.9 * i + var)
+        ww = 1.5 * np.sin(1.3 * i + 0.5 * var + 0.2)
+        return (lambda x: 0.5 * x @ Aw @ x - bw @ x + np.sum(np.logaddexp(0, ww * x)),
+                lambda x: Aw @ x - bw + ww / (1.0 + np.exp(-ww * x)))
     from lbfgsb import rosenbrock, rosenbrock_grad
     return rosenbrock, rosenbrock_grad
 
@@ -73,6 +83,21 @@ def cases(tier, variants):
                         for m in (1, 3, 8):
                             yield dict(part="trace", var=v, kind=kind, n=n, inst=var, sv=sv,
                                        maxcor=m, xscale=1e-6)
+        # letter: line searches limited to 1 or 2 trials in both implementations (failed
+        # searches, memory resets, and what follows them)
+        for kind in ("quart", "soft"):
+            for n in (2, 5):
+                for var in (0, 1, 2):
+                    for sv in range(4):
+                        for mls in (1, 2):
+                            yield dict(part="trace", var=v, kind=kind, n=n, inst=var, sv=sv,
+                                       maxcor=3, maxls=mls)
+        for n in (3, 5, 8):
+            for var in (0, 1, 2, 3):
+                for sv in range(4):
+                    for m in (1, 3, 8):
+                        yield dict(part="trace", var=v, kind="softw", n=n, inst=var, sv=sv,
+                                   maxcor=m, maxls=1)
         for a in (4.0, 50.0):
             for rho in (3e-5, 3e-4, 5e-4, 9e-4, 1.1e-3, 2e-3, 1e-2, 0.1, 0.3):
                 for n in (1, 2):
@@ -95,7 +120,7 @@ def cases(tier, variants):
         yield from F.convex_cases(n, variants, mc, extra=dict(part="final"))
 
 
-def trace_ours(f, g, x0, m, maxiter, bounds=None, samebuf=False, ftol=0.0):
+def trace_ours(f, g, x0, m, maxiter, bounds=None, samebuf=False, ftol=0.0, maxls=20):
     from lbfgsb import minimize_lbfgsb
     ev, its = [], []
     if samebuf:
@@ -110,12 +135,12 @@ def trace_ours(f, g, x0, m, maxiter, bounds=None, samebuf=False, ftol=0.0):
         ev.append(np.array(x, copy=True))
         return f(x)
     res = minimize_lbfgsb(x0=x0.copy(), fun=ff, jac=g, maxcor=m, maxiter=maxiter, ftol=ftol,
-                          gtol=0.0, maxfun=10 ** 6, bounds=bounds,
+                          maxls=maxls, gtol=0.0, maxfun=10 ** 6, bounds=bounds,
                           callback=lambda x, s: its.append((len(ev), np.array(x, copy=True))) and False)
     return ev, its, res
 
 
-def trace_ref(f, g, x0, m, maxiter, ftol=0.0, its=None):
+def trace_ref(f, g, x0, m, maxiter, ftol=0.0, its=None, maxls=20):
     from scipy.optimize import minimize
     ev = []
 
@@ -124,11 +149,26 @@ def trace_ref(f, g, x0, m, maxiter, ftol=0.0, its=None):
         return f(x)
     res = minimize(ff, x0.copy(), jac=g, method="L-BFGS-B",
                    callback=(None if its is None else (lambda xk: its.append(np.array(xk, copy=True)))),
-                   options=dict(maxcor=m, maxiter=maxiter, ftol=ftol, gtol=0.0, maxfun=10 ** 6))
+                   options=dict(maxcor=m, maxiter=maxiter, ftol=ftol, gtol=0.0, maxfun=10 ** 6,
+                                maxls=maxls))
     return ev, res
 
 
-def compare(po, io, ps, x0, g0, unit=1.0, f=None):
+def wolfe_cut(io, x0, f, g):
+    """number of evaluations made when the port first ACCEPTS a point that does not
+    satisfy the strong Wolfe conditions (constants 1e-3, 0.9): only possible when the
+    search was cut short (maxls letter); the reference rejects such a step altogether"""
+    xp, prev_cnt = np.asarray(x0, float), 1
+    for cnt, x in io:
+        dx = x - xp
+        g0d, g1d = float(g(xp) @ dx), float(g(x) @ dx)
+        if not (f(x) <= f(xp) + 1e-3 * g0d and abs(g1d) <= 0.9 * abs(g0d)):
+            return prev_cnt
+        xp, prev_cnt = x, cnt
+    return None
+
+
+def compare(po, io, ps, x0, g0, unit=1.0, f=None, cut_at=None):
     """Point-by-point comparison.  A mismatch is a violation unless one of the port's three
     documented deviations *explains it at that position*.
     -> (number of points compared, mismatch detail or None, deviation label or None)"""
@@ -170,6 +210,8 @@ def compare(po, io, ps, x0, g0, unit=1.0, f=None):
                 return k, None, "roundoff_regime"
             if lowest_at is not None and k >= lowest_at:
                 return k, None, "lowest_trial_accepted"
+            if cut_at is not None and k >= cut_at:
+                return k, None, "search_cut_short_step_accepted"
             if k < first_end and \
                     np.linalg.norm(ps[k] - x0) / np.linalg.norm(g0) >= 1 - 1e-12:
                 # the reference tries a step beyond the port's first-iteration cap
@@ -201,10 +243,13 @@ def run(case):
         if part == "trace" and case["sv"] % 2 == 1:
             bnds = np.array([[-np.inf, np.inf]] * x0.size)
         po, io, ro = trace_ours(f, g, x0, case["maxcor"], 12 if part == "trace" else 6,
-                                bounds=bnds,
+                                bounds=bnds, maxls=case.get("maxls", 20),
                                 samebuf=(part == "trace" and case["sv"] == 2))
-        ps, rs = trace_ref(f, g, x0, case["maxcor"], 12 if part == "trace" else 6)
-        k, mis, dev = compare(po, io, ps, x0, g(x0), unit=case.get("xscale", 1.0), f=f)
+        ps, rs = trace_ref(f, g, x0, case["maxcor"], 12 if part == "trace" else 6,
+                           maxls=case.get("maxls", 20))
+        cut_at = wolfe_cut(io, x0, f, g) if case.get("maxls") else None
+        k, mis, dev = compare(po, io, ps, x0, g(x0), unit=case.get("xscale", 1.0), f=f,
+                              cut_at=cut_at)
         if mis:
             viol.append(V("evaluation_points_differ_from_reference", **mis))
         return dict(viol=viol, outcome=f"{part}|{dev or 'full'}",
